@@ -29,11 +29,13 @@ class Cpu:
         self.undef = False
         self.branched = False
         self.outcome = None               # None | 'svc' | 'smc' | 'undef' | 'notimpl' ... (set under self.outcome_cond)
+        self.unkmask = {}                 # leaf -> mask of bits whose value is architecturally UNKNOWN (not compared)
 
     # ---------------------------------------------------------------- control
     def copy(self):
         c = Cpu(dict(self.st), self.iset, self.instr, self.oplen, self.native_mem)
         c.unpred, c.undef, c.branched, c.outcome, c.unknown = self.unpred, self.undef, self.branched, self.outcome, self.unknown
+        c.unkmask = dict(self.unkmask)
         return c
 
     def cases(self, cases):
@@ -53,6 +55,15 @@ class Cpu:
                 v2 = k.st.get(key)
                 v = v2 if v2 is v else _ite_any(c, v2, v)
             self.st[key] = v
+        mk = set()
+        for _, k in outs:
+            mk.update(k.unkmask.keys())
+        for key in mk:
+            v = last.unkmask.get(key, 0)
+            for c, k in reversed(outs[:-1]):
+                v2 = k.unkmask.get(key, 0)
+                v = v2 if v2 is v else ite(c, v2, v)
+            self.unkmask[key] = v
         for attr in ('unpred', 'undef', 'branched', 'unknown'):
             v = getattr(last, attr)
             for c, k in reversed(outs[:-1]):
@@ -125,6 +136,13 @@ class Cpu:
         new = ST.rset(self._Rview(), n, self.mode(), v)
         for k, x in new.items():
             self.st['R.' + k] = x
+
+    def unknown_bits_R(self, n, mask):
+        """bits `mask` of R[n] (current mode) hold an architecturally UNKNOWN value"""
+        zero = {k: 0 for k in self._Rview()}
+        for k, m in ST.rset(zero, n, self.mode(), mask).items():
+            old = self.unkmask.get('R.' + k, 0)
+            self.unkmask['R.' + k] = m | old
 
     def Rmode(self, n, mode):
         return ST.rget(self._Rview(), n, mode)
